@@ -25,6 +25,35 @@ chk("C15", "exploration",
     "Well-formed = accepted by the reference interpreter; what the archive says = what Go's tar reader decodes; type-changing repeats excluded as unspecified.",
     "deterministic simulation: operation-sequence vs sequential reference model, privilege/umask configurations", "5 C15")
 
+chk("C02", "exploration",
+    "Generated trees are packed and unpacked by the real code, sequentially through a chunking SimReader or pipelined as two scheduled tasks over a bounded SimPipe (capacity 1 B-64 KiB, interleaving from the schedule tape); the resulting tree is compared node by node with the generated node list. Simulation adds adversarial chunking/interleaving and uid/umask configurations; tree shapes are seeded generation against the model.",
+    "Directories touched by an ignore rule are not compared (the statement fixes files). Unprivileged runs use only modes readable by the uid. linux/amd64: link times are not restored and not compared.",
+    "deterministic simulation: Pack||Unpack tasks over a simulated pipe under seeded schedules, round-trip vs generated model tree", "5 C02")
+chk("C03", "exploration",
+    "Rule files from the documented grammar and trees built from the same segment names are packed with ignore on/off, after in-process histories (rule files beginning with a negation, other options) and repeatedly; the shipped file/link set is compared both ways with an independent segment-wise matcher, also for files copied from dereferenced directories (judged at their archive path). The bundle builder's consumer of the same rules is checked in the bundle world against the same matcher.",
+    "Strict oracle on files and links only. The grammar avoids the '**' corners the statement leaves undefined, brackets and backslashes.",
+    "deterministic simulation: history-dependent workload (shared package-level rule state) + differential check against independent reference matcher", "5 C03")
+chk("C05", "exploration",
+    "Trees with in-tree, absolute, out-of-tree, sibling-prefix, chained, dangling and back-pointing links are packed under generated options; provenance tokens prove no outside content leaks, link entries are resolved at their archive position, refusals must be illegal-slug errors without Meta, and slugs from all-relative trees are fed to the real Unpack in the same run.",
+    "Thin simulation dimension (device chunking, Pack output fed to Unpack in one run); mostly seeded generation against oracles, stated as such.",
+    "deterministic simulation: seeded link-topology workload with provenance-token and archive-position oracles; Pack output replayed into Unpack", "5 C05")
+chk("C16", "exploration",
+    "One tree and option set is packed 2-5 times under varied spellings, working directories and in-process histories, and in a third of the runs as concurrent Pack tasks plus a Chdir task whose interleaving at writer yields is decided by the schedule tape; all decoded entry lists must be identical and equal to the model list. One open known finding (root symlink with relative target) is suppressed by mechanism only.",
+    "Interleaving granularity is the writer call (gzip buffers; small trees yield rarely); data races inside Pack are outside what the cooperative scheduler can see.",
+    "deterministic simulation: seeded scheduler over concurrent Pack and Chdir tasks, history and configuration search, output-equality invariant", "5 C16")
+chk("C20", "exploration",
+    "Evaluated on every successful Pack of the Pack-world runs (sequential and concurrent): returned file list vs decoded entry names in order, returned size vs stored bytes vs header sizes.",
+    "Thin simulation dimension; claimed because the invariant is evaluated on all simulated runs at no extra cost.",
+    "deterministic simulation runs with decoded-slug accounting invariant", "5 C20")
+chk("C12", "fault_enumeration",
+    "Single-fault spaces are swept per seeded base scenario: every compressed-byte offset of the reader x 4 fault kinds for Unpack, every writer call and strided byte offsets x kinds for Pack, every peer call x kinds for a build (plus crash points at every callback boundary and every torn manifest prefix); oracles as stated in DESIGN.md C12, the poisoned-builder history checked with porcupine.",
+    "Bases and fault pairs are sampled; syscall-level faults are not injected; crash = process death with completed syscalls durable.",
+    "fault enumeration over simulated devices and peers (deterministic simulation), porcupine history check for the poisoned builder", "5 C12")
+chk("C19", "exploration",
+    "Hostile scenarios of all worlds run in watched worker processes: mutated tar headers with repaired checksums, truncations, link cycles, directory loops, fifo targets, degenerate rule files, hostile manifests and peer-supplied address strings; oracles: no panic, no process death, step bounds, real-time budget confirmed by a solo re-run.",
+    "The string-parser part is plain seeded generation arriving through simulated peers; bounded real-time budget is used only where steps cannot be counted.",
+    "deterministic simulation with watched worker processes: hostile input/fault workload, panic/crash/hang oracles", "5 C19")
+
 def main():
     here = os.path.dirname(os.path.dirname(os.path.abspath(__file__)))
     hooks = []
